@@ -63,7 +63,7 @@ func lockResultStr(r refmvcc.LockKeyResult) string {
 func applyModel(s *refmvcc.Store, o Op) Result {
 	switch o.Kind {
 	case "prewrite":
-		r := refmvcc.PrewriteReq{Start: o.Start, Primary: o.Primary, TTL: lockTTL, MinCommit: o.MinCommit, ForUpdate: o.ForUpdate}
+		r := refmvcc.PrewriteReq{Start: o.Start, Primary: o.Primary, TTL: o.ttl(), MinCommit: o.MinCommit, ForUpdate: o.ForUpdate}
 		for i, k := range o.Keys {
 			m := refmvcc.Mutation{Op: mutOp(o.MutOp), Key: k, Action: action(o.modeOf(i))}
 			if m.Op == refmvcc.OpPut || m.Op == refmvcc.OpInsert {
@@ -73,7 +73,7 @@ func applyModel(s *refmvcc.Store, o Op) Result {
 		}
 		return Result{Errs: s.Prewrite(r)}
 	case "plock":
-		rs := s.PessimisticLock(refmvcc.LockReq{Start: o.Start, ForUpdate: o.ForUpdate, Primary: o.Primary, TTL: lockTTL, Keys: o.Keys,
+		rs := s.PessimisticLock(refmvcc.LockReq{Start: o.Start, ForUpdate: o.ForUpdate, Primary: o.Primary, TTL: o.ttl(), MinCommit: o.MinCommit, Keys: o.Keys,
 			ReturnValues: o.ReturnValues, CheckExistence: o.CheckExistence, LockOnlyIfExists: o.LockOnlyIfExists, ForceLock: o.ForceLock})
 		var res Result
 		for _, r := range rs {
@@ -256,7 +256,7 @@ func pbOp(s string) kvrpcpb.Op {
 }
 
 func (m *mock) prewriteReq(o Op) *kvrpcpb.PrewriteRequest {
-	req := &kvrpcpb.PrewriteRequest{PrimaryLock: []byte(o.Primary), StartVersion: o.Start, LockTtl: lockTTL, MinCommitTs: o.MinCommit,
+	req := &kvrpcpb.PrewriteRequest{PrimaryLock: []byte(o.Primary), StartVersion: o.Start, LockTtl: o.ttl(), MinCommitTs: o.MinCommit,
 		ForUpdateTs: o.ForUpdate, TxnSize: uint64(len(o.Keys)), Context: &kvrpcpb.Context{}}
 	anyAction := false
 	for i, k := range o.Keys {
@@ -281,7 +281,7 @@ func (m *mock) prewriteReq(o Op) *kvrpcpb.PrewriteRequest {
 }
 
 func (m *mock) plockReq(o Op) *kvrpcpb.PessimisticLockRequest {
-	req := &kvrpcpb.PessimisticLockRequest{PrimaryLock: []byte(o.Primary), StartVersion: o.Start, ForUpdateTs: o.ForUpdate, LockTtl: lockTTL,
+	req := &kvrpcpb.PessimisticLockRequest{PrimaryLock: []byte(o.Primary), StartVersion: o.Start, ForUpdateTs: o.ForUpdate, LockTtl: o.ttl(), MinCommitTs: o.MinCommit,
 		WaitTimeout: mocktikv.LockNoWait, ReturnValues: o.ReturnValues, CheckExistence: o.CheckExistence, LockOnlyIfExists: o.LockOnlyIfExists,
 		Context: &kvrpcpb.Context{}}
 	if o.ForceLock {
